@@ -164,3 +164,17 @@ func (p *contractParser) freshOverride(rest string) error {
 	p.w.freshOverrides[key] = ov
 	return nil
 }
+
+// ghostFieldKey: the declared ghost field for selector name on type T: "pkg.Type.name", or the
+// wildcard declaration "*.name" (ghost fields of reader/writer objects seen through several interfaces).
+func (w *World) ghostFieldKey(T types.Type, name string) (string, *GhostVar, bool) {
+	k := structKey(T) + "." + name
+	if g, ok := w.ghosts[k]; ok {
+		return k, g, true
+	}
+	k = "*." + name
+	if g, ok := w.ghosts[k]; ok {
+		return k, g, true
+	}
+	return "", nil, false
+}
